@@ -29,14 +29,15 @@ type Op struct {
 
 // Case is a complete history.
 type Case struct {
-	Property string `json:"property,omitempty"`
-	R        int64  `json:"recovery_ns"`
-	D        int64  `json:"switching_delay_ns"`
-	Init     []int  `json:"init"`
-	NameSet  int    `json:"nameSet,omitempty"` // 0: a..e; 1: names with separators; 2: 300 endpoints
-	InPlace  bool   `json:"inPlace,omitempty"` // the caller keeps one slice and edits it in place between SetEndpoints calls
-	Ops      []Op   `json:"ops"`
-	Failure  *Fail  `json:"failure,omitempty"`
+	Property   string `json:"property,omitempty"`
+	R          int64  `json:"recovery_ns"`
+	D          int64  `json:"switching_delay_ns"`
+	Init       []int  `json:"init"`
+	NameSet    int    `json:"nameSet,omitempty"`    // 0: a..e; 1: names with separators; 2: 300 endpoints
+	InPlace    bool   `json:"inPlace,omitempty"`    // the caller keeps one slice and edits it in place between SetEndpoints calls
+	EmptyFirst int    `json:"emptyFirst,omitempty"` // >0: a construction with an empty list (1 nil, 2 empty slice) is attempted first and must be rejected
+	Ops        []Op   `json:"ops"`
+	Failure    *Fail  `json:"failure,omitempty"`
 }
 
 // Fail describes an oracle failure.
@@ -312,6 +313,17 @@ func Run(c *Case, props map[string]bool) (res Result) {
 	initArg := append([]string{}, init...)
 	if c.InPlace {
 		initArg = callerList
+	}
+	if c.EmptyFirst > 0 {
+		var l []string
+		if c.EmptyFirst == 2 {
+			l = []string{}
+		}
+		lab["construction-with-empty-list"]++
+		if bad, err := multiendpoint.NewMultiEndpoint(&multiendpoint.MultiEndpointOptions{Endpoints: l, RecoveryTimeout: R, SwitchingDelay: D}); err == nil || bad != nil {
+			fail("C13", "B.emptyList", "NewMultiEndpoint with an empty endpoint list returned (%v, %v), want an error and no object", bad, err)
+			endIfOtherFailed()
+		}
 	}
 	me, err := multiendpoint.NewMultiEndpoint(&multiendpoint.MultiEndpointOptions{Endpoints: initArg, RecoveryTimeout: R, SwitchingDelay: D})
 	if err != nil {
